@@ -7,6 +7,8 @@ REGISTRY = {
                 extract=[("verify", "ExtractVerify.v", "verify_driver.ml")]),
     "C01": dict(go=["translate"], translate=[("precedence", "GenPrecedence.v")]),
     "C20": dict(go=["c20obs"]),
+    # pregen: (tool, args after the repo path, generated file under coq/gen) - run before the Coq build
+    "C19": dict(go=["c19obs", "c19gen"], pregen=[("c19gen", ["coq"], "GenWrappers.v")], extract=[("c19", "ExtractC19.v", "c19_driver.ml")]),
     "C03": dict(go=["c03obs", "lexobs"]),
     "C02": dict(go=["c02obs"], extract=[("clos", "ExtractClos.v", "clos_driver.ml")]),
     "core": dict(go=["lexobs", "astobs", "evalobs"],
